@@ -12,6 +12,7 @@ CONSTANTS
   MaxStall = 0
   RotateFollows = TRUE
   WholeBatches = TRUE
+  PollRereads = TRUE
   GenLen = 40
   MinLen = 8
 CHECK_DEADLOCK FALSE
